@@ -116,6 +116,7 @@ def run(R, tier):
     _latch(R, P, u)
     _finish_keeps(R, P, u)
     _surface(R, P, u)
+    _writer_panics(R, P, u)
     # R11.7 ... and every writer hands a refused write back as it is (emit.check_all_writers, shared with C05/R05.9)
     from . import emit as E
     E.check_all_writers(R, "R11.7", P)
@@ -220,6 +221,30 @@ def _finish_keeps(R, P, u, rule="R11.3"):
             if not same(rv) or not same(after) or writes:
                 bad.append("stored %s, unit state %s: finish() returns %r, afterwards the unit holds %r, writes %s" % (label, flags, rv, after, writes))
     R.check(not bad, rule, "ResponseUnit::finish[idempotent]", "returns the stored outcome, leaves it stored and writes nothing (8 unit states)", "; ".join(bad[:3]), where=b.span)
+
+
+def _writer_panics(R, P, u):
+    """R11.10 "never panics" for the writing side: every panic-capable construct in the response modules (index and
+    arithmetic checks, unwraps, the debug assertion of Formatter::push_ascii) is discharged by the panic audit of C01 - run
+    here on those modules alone, so that a writer that stops validating what it pushes (a non-ASCII message reaching
+    push_ascii - seed C11-P) or indexes a list by its capacity is reported under this property too"""
+    from . import panics as PN, c01 as C01
+    dg = PN.Discharger(u, P)
+    n = 0
+    for s_ in PN.enumerate_sites(u):
+        f_ = s_.body.file()
+        if "/parser/response/" not in "/" + f_ and not f_.endswith("parser/format.rs"):
+            continue
+        n += 1
+        d = dg.try_discharge(s_)
+        if d is None:
+            R.violation("R11.10", s_.key, "panic-capable site in the response writers without a discharge argument: %s in %s" % (s_.what, s_.body.npath), where=s_.line)
+        elif d == "debug_assert":
+            ok, why = C01.debug_assert_ok(P, u, s_)
+            R.check(ok, "R11.10", s_.key, "debug_assert! precondition: %s" % why, "debug assertion in %s can be violated by library callers: %s" % (s_.body.npath, why), where=s_.line)
+        else:
+            R.ok("R11.10", s_.key, d)
+    R.floor("R11.10", "panic-capable sites of the response writers", n, 3)
 
 
 def _surface(R, P, u):
